@@ -241,20 +241,40 @@ func c07R4As(c *Ctx, r string) {
 			c.Dominated(r, "v1 DLQHandlerNode.Nack: DLQ write only when the window accepted the nack", asInstrs(kit.CallsTo(fn, write)), kit.NewGates().AddEdges(kit.CondEdges(wc.Value(), true), ""), "the window.Nack()==true edge")
 			// refused ∧ threshold>0 ⇒ every return is FatalError(...)
 			for _, refused := range kit.CondEdges(wc.Value(), false) {
-				thrEdges := kit.IntRangeEdges(fn, func(x ssa.Value) bool { return kit.IsFieldLoad(x, thrF) }, 1, math.MaxInt64)
-				c.R.Check(len(thrEdges) > 0, r, "v1 DLQHandlerNode.Nack: threshold test on the refused path", c.Pos(fn.Pos()), "ok", "no WindowNackThreshold > 0 test on the refused path", true)
-				for _, te := range thrEdges {
-					if !kit.EdgeReaches(refused, te.From.Instrs[len(te.From.Instrs)-1], nil) && refused.To != te.From {
+				// the test may sit in Nack itself or in a same-package helper whose result Nack returns on the refused path
+				type site struct {
+					f    *ssa.Function
+					from *kit.Edge
+				}
+				sites := []site{{fn, &refused}}
+				for _, ret := range kit.Returns(fn) {
+					if !kit.EdgeReaches(refused, ret, nil) {
 						continue
 					}
-					okAll := true
-					for _, ret := range kit.Returns(fn) {
-						if kit.EdgeReaches(te, ret, nil) && !isFatalRet(ret) {
-							okAll = false
+					if call, ok := kit.RetVal(ret, len(ret.Results)-1).(*ssa.Call); ok {
+						if h := call.Call.StaticCallee(); h != nil && h.Pkg == fn.Pkg && len(h.Blocks) > 0 {
+							sites = append(sites, site{h, nil})
 						}
 					}
-					c.R.Check(okAll, r, "v1 DLQHandlerNode.Nack: threshold exceeded returns a fatal error", c.Pos(fn.Pos()), "cerrors.FatalError(...)", "the nack-threshold-exceeded branch no longer returns cerrors.FatalError(...): the pipeline would be restarted automatically instead of degraded", true)
 				}
+				found := false
+				for _, st := range sites {
+					thrEdges := kit.IntRangeEdges(st.f, func(x ssa.Value) bool { return kit.IsFieldLoad(x, thrF) }, 1, math.MaxInt64)
+					for _, te := range thrEdges {
+						if st.from != nil && !kit.EdgeReaches(*st.from, te.From.Instrs[len(te.From.Instrs)-1], nil) && st.from.To != te.From {
+							continue
+						}
+						found = true
+						okAll := true
+						for _, ret := range kit.Returns(st.f) {
+							if kit.EdgeReaches(te, ret, nil) && !isFatalRet(ret) {
+								okAll = false
+							}
+						}
+						c.R.Check(okAll, r, "v1 DLQHandlerNode.Nack: threshold exceeded returns a fatal error", c.Pos(st.f.Pos()), "cerrors.FatalError(...)", "the nack-threshold-exceeded branch no longer returns cerrors.FatalError(...): the pipeline would be restarted automatically instead of degraded", true)
+					}
+				}
+				c.R.Check(found, r, "v1 DLQHandlerNode.Nack: threshold test on the refused path", c.Pos(fn.Pos()), "ok", "no WindowNackThreshold > 0 test on the refused path", true)
 			}
 		}
 		spec := c.W.StdLockSpec()
